@@ -582,7 +582,13 @@ class Repo:
                     self._ann(m, e, outer_cls, out)
             elif head in ('List', 'Dict', 'Set', 'Tuple', 'list', 'dict', 'set', 'tuple', 'Deque', 'FrozenSet'):
                 out.append(External('builtins.' + head.lower()))
-            elif head in ('Awaitable', 'Type', 'Callable', 'AsyncGenerator', 'Generator', 'Coroutine'):
+            elif head in ('Awaitable', 'Coroutine', 'Future'):
+                sl = ann.slice
+                inner = sl.elts[-1] if isinstance(sl, ast.Tuple) else sl
+                sub = []
+                self._ann(m, inner, outer_cls, sub)
+                out.append(('awaitable', [x for x in sub if isinstance(x, (ClassInfo, External))]))
+            elif head in ('Type', 'Callable', 'AsyncGenerator', 'Generator'):
                 out.append(('generic', head, ann))
             return
         if isinstance(ann, ast.BinOp) and isinstance(ann.op, ast.BitOr):
